@@ -408,6 +408,25 @@ class History:
 # ---------------------------------------------------------------------------------------------
 # syntactic classes shared by several properties
 # ---------------------------------------------------------------------------------------------
+class ClassSet:
+    """Names of recorded-finding classes a generated history falls into, each with the index of the first action from
+    which the recorded defect can show; a divergence before that index is not excused by the finding."""
+    def __init__(self, history):
+        self.h, self.pos = history, {}
+
+    def add(self, name, at=None):
+        self.pos.setdefault(name, len(self.h.rust) if at is None else at)
+
+    def __iter__(self):
+        return iter(sorted(self.pos))
+
+    def __contains__(self, name):
+        return name in self.pos
+
+    def meta(self):
+        return {"classes": sorted(self.pos), "class_pos": dict(self.pos)}
+
+
 def aborted_key_reuse(rust):
     """True when a session that does not commit deletes from a table with a unique index and later inserts into it,
     or drops a table and later creates one of the same name: the single index entry per key (per name in the catalog)
@@ -423,34 +442,37 @@ def aborted_key_reuse(rust):
                 indexed.add(body.split()[2])
         if "CREATE UNIQUE INDEX" in a:
             indexed.add(a.split(" ON ")[1].split("(")[0].strip())
-    for a in acts:
+    first = None
+    for idx, a in enumerate(acts):
         op = a.split(" ", 1)[0]
         if op == "B":
             sess[a.split()[1]] = []
         elif op in ("Q", "Q!"):
             _, k, sql = a.split(" ", 2)
-            sess.setdefault(k, []).append(sql)
+            sess.setdefault(k, []).append((idx, sql))
         elif op in ("R", "D"):
             k = a.split()[1]
             deleted, dropped = set(), set()
-            for sql in sess.pop(k, []):
+            for i, sql in sess.pop(k, []):
                 w = sql.split()
                 if sql.startswith("DELETE FROM "):
                     deleted.add(w[2])
                 elif sql.startswith("INSERT INTO ") and w[2] in deleted and w[2] in indexed:
-                    return True
+                    first = i if first is None else min(first, i)
                 elif sql.startswith("DROP TABLE "):
                     dropped.add(w[2])
                 elif sql.startswith("CREATE TABLE ") and w[2] in dropped:
-                    return True
+                    first = i if first is None else min(first, i)
         elif op == "C":
             sess.pop(a.split()[1], None)
-    return False
+    return first
 
 
 def tag_key_reuse(case):
-    if aborted_key_reuse(case.rust):
+    at = aborted_key_reuse(case.rust)
+    if at is not None:
         case.meta.setdefault("classes", [])
         if "key-reuse-in-aborted-transaction" not in case.meta["classes"]:
             case.meta["classes"] = sorted(case.meta["classes"] + ["key-reuse-in-aborted-transaction"])
+        case.meta.setdefault("class_pos", {})["key-reuse-in-aborted-transaction"] = at
     return case
